@@ -12,13 +12,17 @@ if "--checks" in sys.argv:
 if "--tier" in sys.argv:
     tier = sys.argv[sys.argv.index("--tier") + 1]
 seed = "/tmp/seed-%s/SEED" % ID
+store_n = n
+if "--round" in sys.argv and sys.argv[sys.argv.index("--round") + 1] == "2":
+    seed = "/tmp/seed2-%s/SEED" % ID
+    store_n = str(int(n) + 2)
 env = dict(os.environ, GOFLAGS="-mod=mod", GOPROXY="off", GOSUMDB="off", GOTOOLCHAIN="local")
 def sh(cmd, cwd=None, timeout=3000, e=None):
     r = subprocess.run(cmd, shell=True, cwd=cwd, env=e or env, capture_output=True, text=True, timeout=timeout)
     return r.returncode, r.stdout + r.stderr
 patch = os.path.join(seed, "change%s.diff" % n)
 demo = os.path.join(seed, "demo%s_test.go" % n)
-stored = "/verif/seeded/%s-%s" % (ID, n)
+stored = "/verif/seeded/%s-%s" % (ID, store_n)
 if not os.path.exists(patch) and os.path.exists(os.path.join(stored, "patch.diff")):
     # re-evaluation from the stored copy
     shutil.copy(os.path.join(stored, "patch.diff"), "/tmp/seedeval_%s_%s.diff" % (ID, n))
@@ -77,7 +81,7 @@ try:
         rd = "/verif/replays/%s" % c
         if os.path.isdir(rd):
             shutil.rmtree(rd)
-    out_dir = "/verif/seeded/%s-%s" % (ID, n)
+    out_dir = "/verif/seeded/%s-%s" % (ID, store_n)
     os.makedirs(out_dir, exist_ok=True)
     if os.path.abspath(patch) != os.path.abspath(os.path.join(out_dir, "patch.diff")):
         shutil.copy(patch, os.path.join(out_dir, "patch.diff"))
@@ -89,7 +93,7 @@ try:
                           "go test -run <demo tests> with and without the change", "VERIF_REPO=<worktree> python3 /verif/vcheck.py run <check> --tier " + tier]
     json.dump(meta, open(os.path.join(out_dir, "meta.json"), "w"), indent=1)
     brief = {k: meta[k] for k in ("applies", "builds", "suite_green_with_change", "demo_fails_with_change", "demo_passes_without_change")}
-    print(ID, n, brief)
+    print(ID, store_n, brief)
     for c, v in meta["checks"].items():
         print("   check", c, "detected" if v["detected"] else "MISSED(exit %s)" % v["exit"], v["signatures"][:4], v["infra"][:200])
 finally:
